@@ -1,3 +1,4 @@
+#![allow(unused_imports, dead_code)]
 //! Deterministic simulation harness for piyoppi/chiritori (see /verif/DESIGN.md).
 
 mod c05;
